@@ -304,7 +304,9 @@ func LoadProgram(repo string, pkgDirs []string, ov *Overlay) (*ssa.Program, []*p
 		Mode:       packages.LoadAllSyntax,
 		Dir:        repo,
 		Overlay:    ov.Files,
-		BuildFlags: []string{"-tags=verif"},
+		// math_big_pure_go / purego: load the pure-Go variants of math/big and the
+		// standard crypto packages (same semantics as the assembly the native build uses)
+		BuildFlags: []string{"-tags=verif,math_big_pure_go,purego"},
 		Env:        append(os.Environ(), "GOFLAGS=-mod=mod", "GOPROXY=off"),
 		Tests:      false,
 	}
